@@ -81,6 +81,11 @@ def run(ctx):
     ctx.rule("C11.sites", "every panic/bounds site of the matrix_uri module is discharged or reviewed (no indexing of possibly-empty segments)")
     PC.site_rule(ctx, w, ["ruma_common"], "C11.sites", fn_filter=lambda fn: "identifiers::matrix_uri" in fn["path"], floor=1)      # the positive controls keep the detector honest; the number of sites varies with the spelling
 
+    # URI parsing hands every identifier and every `via` server name to the validators: a panic site there is a panic of MatrixUri::parse
+    ctx.rule("C11.validator-sites", "every panic/bounds site of the identifier validators (ruma-identifiers-validation), which the URI parsers call on untrusted text, "
+                                    "is discharged or reviewed (same inventory as C10.sites)")
+    PC.site_rule(ctx, w, ["ruma_identifiers_validation"], "C11.validator-sites", floor=1)
+
     ctx.rule("C11.encode_set", "PATH_PERCENT_ENCODE_SET (evaluated) contains the bytes that the URI parsers split on or decode: '/', '?', '#', '%', "
                                "space and all ASCII controls")
     v = w.value("ruma_common::percent_encode::PATH_PERCENT_ENCODE_SET")
